@@ -12,6 +12,9 @@ from . import smt
 from .sym import (EvalCtx, SymBool, Unsupported, activate, explore, to_z3_bool)
 
 
+UNINTERPRETED_RELATIONS = ("KEXP",)
+
+
 class Clause:
     """One contract clause on a function.
 
@@ -208,6 +211,13 @@ def check_function(function, setup, call, clauses, *, mode, label="", bounded=Fa
                     except Exception as e:
                         rep = {"confirmed": None, "error": f"{type(e).__name__}: {e}"}
                 model = {k: str(val) for k, val in (v.model or {}).items()}
+                uf = any(n in str(goal) for n in UNINTERPRETED_RELATIONS)
+                if rep is not None and rep.get("confirmed") is False and uf:
+                    # the VC is stated over an uninterpreted cone predicate: the solver's model interprets
+                    # it freely, so a native run with the real cone cannot be expected to reproduce the
+                    # point.  The obligation itself (valid for EVERY predicate on the unchanged tree) fails.
+                    rep = dict(rep, confirmed=None, why="counter-model interprets an uninterpreted cone predicate; "
+                                                        "no numerically realisable failing input was searched for")
                 if rep is not None and rep.get("confirmed") is False:
                     out.append(ob(function, cl.name, oid_label, "undecided", model=model, replayed=rep,
                                   reason="counter-model not reproduced natively (spurious)", **rec))
